@@ -20,6 +20,22 @@ def shards(bindir, binname, prop, seed, n, base_args, timeout, per_shard_args=No
     return jobs
 
 
+HOSTILE_ENV = {"DD_ENTITY_ID": "cvh-entity-é,a:b|c", "DD_ENV": "cvh-env", "DD_SERVICE": "cvh-service", "DD_VERSION": "9.9.9", "DD_TAGS": "cvh:tag,other", "DD_AGENT_HOST": "192.0.2.1",
+               "DD_DOGSTATSD_PORT": "9", "DD_DOGSTATSD_URL": "udp://192.0.2.1:9", "DD_DOGSTATSD_SOCKET": "/nonexistent/cvh.sock", "DD_EXTERNAL_ENV": "cvh-ext", "DD_ORIGIN_DETECTION_ENABLED": "true",
+               "DD_TELEMETRY_ENABLED": "true", "STATSD_HOST": "192.0.2.1", "STATSD_PORT": "9", "STATSD_PREFIX": "cvhprefix", "STATSD_TAGS": "cvh:tag", "HOSTNAME": "cvh-host", "CADENCE_PREFIX": "cvhprefix",
+               "CADENCE_TAGS": "cvh:tag", "CADENCE_DISABLE": "1", "NO_METRICS": "1"}
+
+
+def hostile_env(jobs, last=4):
+    """The last `last` shards of a sharded driver run in a hostile process environment: the usual DogStatsD / StatsD variables
+    are set, and the driver's getenv interposer answers EVERY other variable the process asks for as well (modes 1-4 =
+    string / "1" / "true" / "8125"). What a client sends is a function of its arguments, not of the environment."""
+    for k, j in enumerate(jobs[-last:]):
+        j.argv += ["--hostile-env", str(1 + k % 4)]
+        j.env = dict(j.env or {}, **HOSTILE_ENV)
+    return jobs
+
+
 def fuzz_job(prop, target, driver, seed, seconds, workers=4):
     """Thorough tier: a coverage-guided session (libFuzzer through cargo-fuzz, no sanitizer) whose input bytes drive the
     driver's own case generator and whose executions are judged by the driver's own oracles (tools/fuzz_job.py)."""
@@ -62,8 +78,8 @@ meta("C01", level="exploration",
 @plan("C01")
 def _c01(bindir, tier, seed):
     if tier == QUICK:
-        return shards(bindir, "fmt_driver", "C01", seed, NCPU, ["--mode", "c01", "--cases", "2000"], 600)
-    return shards(bindir, "fmt_driver", "C01", seed, NCPU, ["--mode", "c01", "--cases", "60000"], 7200) + [fuzz_job("C01", "fz_fmt", "fmt_driver", seed, 120, 8)]
+        return hostile_env(shards(bindir, "fmt_driver", "C01", seed, NCPU, ["--mode", "c01", "--cases", "2000"], 600))
+    return hostile_env(shards(bindir, "fmt_driver", "C01", seed, NCPU, ["--mode", "c01", "--cases", "60000"], 7200)) + [fuzz_job("C01", "fz_fmt", "fmt_driver", seed, 120, 8)]
 
 
 # ---- C02 ----------------------------------------------------------------------------------------------
@@ -136,8 +152,8 @@ meta("C04", level="exploration",
 @plan("C04")
 def _c04(bindir, tier, seed):
     if tier == QUICK:
-        return shards(bindir, "fmt_driver", "C04", seed, NCPU, ["--mode", "c04", "--cases", "4000"], 600)
-    return shards(bindir, "fmt_driver", "C04", seed, NCPU, ["--mode", "c04", "--cases", "60000"], 7200) + [fuzz_job("C04", "fz_fmt", "fmt_driver", seed, 120, 8)]
+        return hostile_env(shards(bindir, "fmt_driver", "C04", seed, NCPU, ["--mode", "c04", "--cases", "4000"], 600))
+    return hostile_env(shards(bindir, "fmt_driver", "C04", seed, NCPU, ["--mode", "c04", "--cases", "60000"], 7200)) + [fuzz_job("C04", "fz_fmt", "fmt_driver", seed, 120, 8)]
 
 
 # ---- C05 / C06 / C19 (fault-free framing) and C07 (framing under injected write failures) ---------------
